@@ -67,6 +67,7 @@ def build(config, tier):
                 "    check!({lanes}, \"normalize lanes are q[i]/len or q[i]*(1/len)\");").format(
             Q=Q, w=w, t=t, lanes=" && ".join("(__verif::leq%d(n[%d], a[%d] / s) || __verif::leq%d(n[%d], a[%d] * rc))" % (w, i, i, w, i, i) for i in range(4)))
         obs.append(Ob("%s_length_normalize" % pre, PROP, body, fn="%s::length / normalize" % Q, kind="lemma", solver="cvc5", stubs=["sse", "uf_sqrt%d" % w], clauses=2, cls="structure",
+                      tier="quick" if Q == "Quat" else "thorough",
                       desc="%s: length == sqrt(dot(q,q)), normalize lanes == q[i]/length or q[i]*(1/length); sqrt uninterpreted (shared symbol)" % Q))
         # ---- lattice
         eqi = "sp::eqi%d" % w
@@ -81,10 +82,11 @@ def build(config, tier):
         if Q == "Quat":
             vforms.append(("mul_vec3a", "Vec3A", lambda vi: "mk::vec3a_of(sp::f32x3(%s))" % vi))
         for (m, V, vc) in vforms:
-            body = "let qi = sp::lat4(1); let vi = sp::lat3(1); let q = %s; let v = %s; let r = q.%s(v).to_array(); let e = sp::qrot(qi, vi);\n    check!(%s, \"q*v == vector part of q v q*\");" % (
-                qc("qi"), vc("vi"), m, " && ".join("%s(r[%d], e[%d])" % (eqi, i, i) for i in range(3)))
-            obs.append(Ob("%s_lat_%s" % (pre, m), PROP, body, fn="%s::%s" % (Q, m), kind="lemma", solver="cadical", stubs=["sse"], cls="lattice", tier=ltier,
-                          desc="%s::%s on the lattice {-1,0,1}: exactly the vector part of q (v,0) conj(q) (polynomial identity for every q)" % (Q, m)))
+            for lane in range(3):
+                body = "let qi = sp::lat4(1); let vi = sp::lat3(1); let q = %s; let v = %s; let r = q.%s(v).to_array(); let e = sp::qrot(qi, vi);\n    check!(%s(r[%d], e[%d]), \"q*v == vector part of q v q* (lane %d)\");" % (
+                    qc("qi"), vc("vi"), m, eqi, lane, lane, lane)
+                obs.append(Ob("%s_lat_%s_l%d" % (pre, m, lane), PROP, body, fn="%s::%s" % (Q, m), kind="lemma", solver="cadical", stubs=["sse"], cls="lattice", tier=ltier,
+                              desc="%s::%s lane %d on the lattice {-1,0,1}: exactly the vector part of q (v,0) conj(q) (polynomial identity for every q)" % (Q, m, lane)))
         m0, V0, vc0 = vforms[-1]
         body = "let qi = sp::lat4(1); let pi = sp::lat4(1); let vi = sp::lat3(1); let q = %s; let p = %s; let v = %s;\n    let l = (q * p) * v; let r = q * (p * v); let e = sp::qrot(qi, sp::qrot(pi, vi));\n    check!(%s, \"(q*p)*v == q*(p*v)\");" % (
             qc("qi"), qc("pi"), vc0("vi"), " && ".join("%s(l.to_array()[%d], e[%d]) && %s(r.to_array()[%d], e[%d])" % (eqi, i, i, eqi, i, i) for i in range(3)))
